@@ -5,6 +5,7 @@ A library is built from true molecules (cell, contig, site, strand, umi). Each m
 optionally soft clipped at the read start, with mismatches (MD/NM kept correct), named with the
 demultiplexer's k:v;k:v header (so the real QueryNameFlagger decodes them) and a unique id in CX.
 """
+import random as _random
 from vlib.sim.bam import revcomp
 
 MX_NLA = 'NLAIII384C8U3'
@@ -275,6 +276,16 @@ def simulate_library(r, method='nla', contigs=None, n_cells=3, n_sites=10, umi_l
             if ln <= 2 * margin + 10:
                 continue
             sites.append((name, r.randrange(margin, ln - margin)))
+        # sites on the very first / last bases of a contig (coordinate 0 is a coordinate like any other): only the strand that
+        # points into the contig yields a fragment there
+        er = _random.Random(r.random())
+        for name, ln in contigs:
+            if ln <= 2 * margin + 10 or er.random() < 0.5:
+                continue
+            if method == 'nla':
+                sites += er.sample([(name, 0), (name, ln - 4)], er.randint(1, 2))
+            else:
+                sites += er.sample([(name, 1), (name, ln - 2)], er.randint(1, 2))
     # plant motifs, dropping sites that would overlap an already planted motif
     planted = []
     for name, pos in sites:
